@@ -23,6 +23,7 @@ H3 = "h3.connection:H3Connection."
 def run(repo, chk):
     chk.rule("R1", "least-fixpoint exception-escape analysis: nothing propagates out of H3Connection.handle_event / H0Connection.handle_event (ProtocolError subclasses are converted inside)")
     chk.rule("R2", "handle_event catches ProtocolError around both receive paths, sets _is_done and passes exc.error_code / exc.reason_phrase to QuicConnection.close; every ProtocolError subclass carries an ErrorCode member")
+    chk.rule("R2c", "a peer-triggered reset of a send half marks the stream is_stopped_by_peer first, and send_stream_data never writes to a marked stream (so the order in which the application drains StreamDataReceived / StopSendingReceived cannot make write() assert)")
     chk.rule("R2b", "H3Stream.is_ended() requires `not self.blocked`; StopSendingReceived on a local critical stream raises ClosedCriticalStream")
     chk.rule("R3", "_write_connection_close_frame bounds the reason phrase by the space left in the packet and the closing branch of datagrams_to_send catches QuicPacketBuilderStop")
     chk.decline("TypeError/AttributeError from ill-typed events, exceptions raised inside pylsqpack other than its documented error classes")
@@ -108,6 +109,48 @@ def run(repo, chk):
                     if fin:
                         ends.append(f"{q}: {norm(c)[:60]}")
     chk.ob("R2b", "the local critical streams are never finished", not ends, f"{ends}", "")
+
+    # ---- R2c: a write can never reach a send half that the peer made us reset ---------------
+    ssd = Fn(repo, CONN + "send_stream_data")
+    ws = ssd.calls(suffix="write")
+    ws = [c for c in ws if "sender.write" in call_name(c)]
+    ok = bool(ws) and all(any(a[0].endswith(".is_stopped_by_peer") and a[1] is False for a in ssd.guard_atoms(c)) for c in ws)
+    chk.ob("R2c", "send_stream_data: sender.write() only runs for a stream the peer has not stopped", ok, "after a peer STOP_SENDING the send half is reset at once; a write before the application has drained StopSendingReceived asserts", ssd.loc(ssd.node))
+    qm = repo.mod("quic.connection")
+    n_reset = 0
+    for q in sorted(qm.functions):
+        if not q.startswith("QuicConnection.") or q == "QuicConnection.reset_stream":
+            continue
+        f = Fn(repo, "quic.connection:" + q)
+        for c in f.calls(suffix="reset"):
+            if not call_name(c).endswith("sender.reset"):
+                continue
+            n_reset += 1
+            recv = call_name(c)[: -len(".sender.reset")]
+            marks = [st for st, t, v in f.assigns(chain=recv + ".is_stopped_by_peer") if isinstance(v, ast.Constant) and v.value is True]
+            ok = any(f.before(st, c) for st in marks)
+            chk.ob("R2c", f"{q}: `{norm(c)[:60]}` (reset caused by the peer) is preceded by marking the stream is_stopped_by_peer", ok, "send_stream_data cannot tell that this stream was reset and will assert on the next write", f.loc(c))
+    if n_reset < 1:
+        raise AnalysisError("no peer-triggered sender.reset() found in QuicConnection (anchor for C16-R2c vanished)")
+    clears = []
+    for mname in ("quic.connection", "quic.stream"):
+        mm = repo.mod(mname)
+        for q in mm.functions:
+            f = Fn(repo, mname + ":" + q)
+            for st, t, v in f.assigns(suffix="is_stopped_by_peer"):
+                if not (isinstance(v, ast.Constant) and v.value is True) and not q.endswith("__init__"):
+                    clears.append(f"{q}: {norm(st)}")
+    chk.ob("R2c", "is_stopped_by_peer is never cleared", not clears, f"{clears}", "")
+    # the HTTP/3 layer itself never resets its critical streams
+    bad = []
+    for q in m.functions:
+        if q.startswith("H3Connection."):
+            f = Fn(repo, "h3.connection:" + q)
+            for c in f.calls(name="self._quic.reset_stream"):
+                sid = norm(c.args[0]) if c.args else ""
+                if "_local_" in sid:
+                    bad.append(f"{q}: {norm(c)[:60]}")
+    chk.ob("R2c", "the HTTP/3 layer never resets its own control/QPACK streams", not bad, f"{bad}", "")
 
     # ---- R3 ------------------------------------------------------------------------------
     wc = Fn(repo, CONN + "_write_connection_close_frame")
